@@ -218,6 +218,12 @@ ALIENS = [
     ('bin', '/', ('int', 1), ('int', 0)), ('bin', '%', ('int', 1), ('bin', '-', ('int', 2), ('int', 2))),
     ('spec', ('int', 1), ('str', 'a')), ('spec', ('str', 'a'), ('str', 'b')), ('var', 'no_such_variable'),
     ('idx', ('arr', ()), ('int', 0)), ('idx', ('arr', (('call', 'nothing', ()),)), ('int', 0)),
+    ('spec', ('call', 'nothing', ()), ('call', 'nothing', ())), ('spec', ('call', 'nothing', ()), ('int', 1)),
+    ('spec', ('int', 1), ('call', 'nothing', ())), ('bin', '+', ('call', 'nothing', ()), ('call', 'nothing', ())),
+    ('bin', '==', ('call', 'nothing', ()), ('call', 'nothing', ())), ('bin', 'and', ('call', 'nothing', ()), ('bool', True)),
+    ('un', '-', ('call', 'nothing', ())), ('un', 'not', ('call', 'nothing', ())), ('is', ('call', 'nothing', ()), 'int'),
+    ('is', ('call', 'nothing', ()), 'bool'), ('idx', ('call', 'nothing', ()), ('int', 0)), ('len', ('call', 'nothing', ())),
+    ('idx', ('arr', (('int', 1),)), ('call', 'nothing', ())), ('call', 'write', (('call', 'nothing', ()),)),
     ('int', 10 ** 30), ('un', 'not', ('arr', ())), ('bin', 'and', ('str', ''), ('arr', ())),
 ]
 BAD_STMTS = [
@@ -235,6 +241,10 @@ BAD_STMTS = [
     ('decl', ('arrt', 'int', False), 'zg', ('arr', (('str', 'a'),)), True),
     ('decl', ('arrt', 'bool', False), 'zh', ('arr', (('int', 2),)), True),
     ('ret', ('int', 1)), ('ret', None), ('break',), ('cont',),
+    ('expr', ('spec', ('call', 'nothing', ()), ('call', 'nothing', ()))), ('ret', ('call', 'nothing', ())),
+    ('set', ('call', 'nothing', ()), ('int', 1)), ('decl', 'bool', 'zv', ('call', 'nothing', ()), False),
+    ('if', ('spec', ('call', 'nothing', ()), ('call', 'nothing', ())), ('block', ()), None),
+    ('dyn', 'int', 'zw', ('call', 'nothing', ())), ('expr', ('call', '!truth_is_defeat', (('call', 'nothing', ()),))),
     ('expr', ('call', 'nothing', (('int', 1),))), ('expr', ('call', 'write', ())),
     ('expr', ('call', 'write', (('arr', (('int', 1),)),))), ('expr', ('call', 'sleep', (('str', 'x'),))),
     ('preempt', ('block', ())), ('try', ('block', ()), 'undo', ('block', ())),
